@@ -97,7 +97,7 @@ pub fn main(args: &Args) -> i32 {
     let mut b = Batcher::new(&args.out, "lock", 60_000);
     let mut rng = SmallRng::seed_from_u64(args.seed ^ 0x10C);
     let configs: Vec<(usize, usize, usize, bool)> = if args.thorough {
-        vec![(2, 2000, 1, false), (3, 1500, 2, false), (4, 1000, 1, false), (8, 800, 3, false), (16, 600, 2, false), (16, 2000, 1, false), (4, 60, 1, true), (8, 40, 2, true)]
+        vec![(2, 2000, 1, false), (3, 1500, 2, false), (4, 1000, 1, false), (8, 800, 3, false), (16, 600, 2, false), (16, 2000, 1, false), (32, 800, 2, false), (64, 200, 3, false), (4, 60, 1, true), (8, 40, 2, true), (12, 40, 1, true), (16, 30, 1, true)]
     } else {
         vec![(2, 400, 1, false), (3, 300, 2, false), (8, 200, 3, false), (16, 150, 1, false), (4, 30, 1, true)]
     };
